@@ -485,7 +485,7 @@ RESTART_KINDS = ('recipient-stranded', 'known-message-neither-scheduled-nor-in-f
 
 
 def restart_cfg(cfg):
-    return dict(backend='disk', backoff='r0x2', n=1, messages=0, prestored=4, prestored_due=0.0, store_pool=cfg['store_pool'], relay_pool=cfg.get('relay_pool'), chunk_size=48,
+    return dict(backend='disk', backoff='r0x2', n=1, messages=cfg.get('messages', 0), prestored=4, prestored_due=0.0, store_pool=cfg['store_pool'], relay_pool=cfg.get('relay_pool'), chunk_size=48,
                 slow_ops=cfg['slow'], menu=dict(per_recipient=False, boom=False, reply_ok=False), max_steps=2000)
 
 
@@ -503,7 +503,7 @@ def check_restart(cfg, ch, res):
         # DiskStorage.write() itself raised while the directory was being filled (over the in-memory FS)
         res.evaluations += 1
         res.violation({'kind': 'write-raised', 'during': 'restart'}, 'DiskStorage.write() raised while filling the queue directory: %s' % e,
-                      {'restart': {'store_pool': cfg['store_pool'], 'relay_pool': cfg.get('relay_pool'), 'slow': cfg['slow']}, 'choices': ch.choices, 'hist': None, 'overlap': None, 'k': 0})
+                      {'restart': {'store_pool': cfg['store_pool'], 'relay_pool': cfg.get('relay_pool'), 'slow': cfg['slow'], 'messages': cfg.get('messages', 0)}, 'choices': ch.choices, 'hist': None, 'overlap': None, 'k': 0})
         return ('write-raised',)
     res.evaluations += 1
     res.outcome(obs)
@@ -522,7 +522,7 @@ def check_restart(cfg, ch, res):
                        'blocked_at': getattr(qw, 'pool_blocked_at', '')},
                       'restart with store_pool=%r relay_pool=%r slow=%r: %s; attempts=%r' % (cfg['store_pool'], cfg.get('relay_pool'), cfg['slow'], detail,
                                                                               [(a['qid'][-2:], a['outcome']) for a in qw.attempts]),
-                      {'restart': {'store_pool': cfg['store_pool'], 'relay_pool': cfg.get('relay_pool'), 'slow': cfg['slow']}, 'choices': ch.choices, 'hist': None, 'overlap': None, 'k': 0})
+                      {'restart': {'store_pool': cfg['store_pool'], 'relay_pool': cfg.get('relay_pool'), 'slow': cfg['slow'], 'messages': cfg.get('messages', 0)}, 'choices': ch.choices, 'hist': None, 'overlap': None, 'k': 0})
     return obs
 
 
@@ -557,6 +557,9 @@ def configs(tier, seed):
     for sp in (None, 1, 2):
         for slow in (['load-step'], ['load-step', 'get'], ['load-step', 'set_timestamp']):
             cfgs.append({'mode': 'restart', 'store_pool': sp, 'slow': slow, 'd': 1 if tier == 'quick' else 3})
+    # the restarted process accepts a new message while its start-up scan is still going on
+    for sp in (None, 2):
+        cfgs.append({'mode': 'restart', 'store_pool': sp, 'messages': 1, 'slow': ['load-step', 'write'], 'd': 2 if tier == 'quick' else 3})
     # both pools bounded: a read holding a storage slot waits for a relay slot while a finishing attempt needs a storage slot
     for sp, rp in ((1, 1), (2, 1), (1, 2)):
         cfgs.append({'mode': 'restart', 'store_pool': sp, 'relay_pool': rp, 'slow': ['load-step', 'get'], 'd': 1 if tier == 'quick' else 2})
